@@ -53,6 +53,8 @@ class DropoutCase:
         p = sp["p"]
         shape = tuple(sp["shape"])
         m = nn.Dropout(p)
+        # nested: the layer sits in a container (two levels); T / E switch the container, t / e the layer itself
+        box = nn.Sequential(nn.Sequential(m)) if sp.get("nested") else m
         out = E.Outcome()
         training = True
         ndraw = 0
@@ -60,15 +62,15 @@ class DropoutCase:
         defer = bool(sp.get("defer"))       # all backward calls after the last forward (a layer shared by several branches)
         recs = []
         for i, act in enumerate(sp["history"]):
-            if act == "t":
-                m.train()
+            if act in "tT":
+                (box if act == "T" else m).train()
                 training = True
-            elif act == "e":
-                m.eval()
+            elif act in "eE":
+                (box if act == "E" else m).eval()
                 training = False
             else:
                 x = Tn(env.arr("x%d" % nf, shape), requires_grad=True)
-                y = m(x)
+                y = box(x)
                 tag = "forward %d (%s%s)" % (nf, "train" if training else "eval", ", backward deferred" if defer else "")
                 g = env.arr("g%d" % nf, shape, lo=-2, hi=2)
                 if not defer:
@@ -201,6 +203,15 @@ def enumerate_specs(tier):
     for p in (0.5, 0.75):
         for h in ("ff", "fef", "ftf", "eff") + (("fff", "ffef") if tier != "quick" else ()):
             specs.append({"kind": "dropout", "p": p, "shape": [2], "history": h, "defer": True})
+    # a Dropout two containers deep, switched through the container (T/E) and directly (t/e) in every order
+    for n in (2, 3) if tier == "quick" else (2, 3, 4):
+        for h in itertools.product("tTeE", repeat=n):
+            h = "".join(h)
+            if not (any(c in h for c in "TE") and any(c in h for c in "te")):
+                continue
+            if tier == "quick" and n == 3 and h[0] in "tT":
+                continue        # modules start in training mode: a leading train() adds nothing at this length
+            specs.append({"kind": "dropout", "p": 0.5, "shape": [2], "history": h + "f", "nested": True})
     specs.append({"kind": "dropout", "p": 0.5, "shape": [2, 2], "history": "f"})
     specs.append({"kind": "dropout", "p": 0.3, "shape": [1, 2, 1], "history": "ef"})
     specs.append({"kind": "dropout", "p": 0.875, "shape": [3], "history": "f"})
@@ -241,7 +252,8 @@ def main(tier, seed):
     return runner.finish(
         PROP, tier, seed, results, t0,
         bounds={"history": "<= 3 (quick) / 4 (thorough) actions over {train(), eval(), forward} with <= 2/3 forwards; backward right after "
-                           "each forward, or (dropout) all backward calls deferred until after the last forward",
+                           "each forward, or (dropout) all backward calls deferred until after the last forward; "
+                           "Dropout two containers deep with <= 3 (4) switches through the container and directly, in every order",
                 "dropout": "p in {0, 0.5, 0.75, 0.875, 1} (1/(1-p) exactly representable), 2-4 elements", "batch norm": "N<=3, C<=2, ranks 2-4"},
         assumptions=["floats are reals", "uniform draws are fresh symbolic values in [0,1) (generator contract); 'zeroed with "
                      "probability p' is read as 'zeroed exactly when the draw is <= p'",
